@@ -1241,7 +1241,11 @@ func (dsc *dataStoreCommand) lpop(keyName string, count int) (values [][]byte, e
 		return
 	}
 
-	values = make([][]byte, 0, count)
+	capacity := count
+	if capacity > list.count {
+		capacity = list.count
+	}
+	values = make([][]byte, 0, capacity)
 
 	for ; count > 0; count-- {
 		item := list.head
@@ -1348,7 +1352,11 @@ func (dsc *dataStoreCommand) rpop(keyName string, count int) (values [][]byte, e
 		return
 	}
 
-	values = make([][]byte, 0, count)
+	capacity := count
+	if capacity > list.count {
+		capacity = list.count
+	}
+	values = make([][]byte, 0, capacity)
 
 	for ; count > 0; count-- {
 		item := list.tail
